@@ -49,7 +49,7 @@ ASSUMPTIONS = [
     'references resolving to strings that look like markers; two components '
     'of one type in an entity; duplicate entity ids',
     'explicit ids are strings, ints >= 1000, ints <= 0 (falsy ones '
-    'included) or the small ints 1-3 that the automatic generator hands to '
+    'included) or the small numbers 1, 2, 3, 1.0, 2.0 that the automatic generator hands to '
     'the id-less entities of the same description',
 ]
 
@@ -132,7 +132,7 @@ def gen_one(rng, tier, index):
             ent = {}
             if rng.random() < 0.4:
                 eid = rng.choice(['player', 'e2', 1000, 1001, 2000, 'x y', 0, '',
-                                  -5, 1, 2, 3, 1, 2])
+                                  -5, 1, 2, 3, 1, 2, 1.0, 2.0])
                 if eid in used:
                     continue
                 used.add(eid)
@@ -185,7 +185,11 @@ def gen_cases(tier, seed):
         yield gen_scale(random.Random(f'C15/scale/{seed}/{tier}/{i}'), i)
     n = 2500 if tier == 'quick' else 16 * 5000
     for i in range(n):
-        yield gen_one(random.Random(f'C15/{seed}/{tier}/{i}'), tier, i)
+        case = gen_one(random.Random(f'C15/{seed}/{tier}/{i}'), tier, i)
+        if i % 6 == 5:
+            # the k-th constructor call of the first load fails once
+            case['flaky'] = i // 6 % 4
+        yield case
 
 
 def resolve(name):
@@ -285,7 +289,32 @@ def _run(case, desper, fx, res, tmp):
             handle = desper.WorldHandle()
             handle.transform_functions.append(
                 lambda h, w: desper.populate_world_from_dict(w, concrete))
-        world = handle()
+        fx.FAIL.update(countdown=case.get('flaky'), fired=False)
+        try:
+            world = handle()
+        except fx.FixtureFault:
+            world = None
+        finally:
+            fx.FAIL['countdown'] = None
+        if fx.FAIL['fired']:
+            # the first load failed in a constructor and the program
+            # carries on: a second access may fail again (not judged), but
+            # a world it returns must be the complete one
+            res.stats['loads_failed_once'] += 1
+            if world is not None:
+                res.div(0, 'fault-not-propagated', 'a constructor raised '
+                        'during the load but the handle returned a world',
+                        'the exception', 'a world')
+                return
+            del fx.LOG[:]
+            for h in handles.values():
+                h.n = h.n       # resources stay loaded
+            try:
+                world = handle()
+            except Exception:
+                res.stats['dontcare_retry_raised'] += 1
+                return
+            res.tags['retried_after_failed_load'].add(True)
     except Exception as ex:
         res.div(0, 'load-raised', 'loading a well-formed description raised '
                 f'{type(ex).__name__}: {str(ex)[-300:]}', 'a world',
